@@ -65,7 +65,16 @@ pub fn gen(seed: u64, idx: u64, tier: Tier) -> Scenario {
         sc.knobs.insert("exhaustive_slice".into(), idx as i64);
     } else {
         for _ in 0..600 {
-            match r.below(4) {
+            match if r.chance(1, 60) { 9 } else { r.below(4) } {
+                9 => { // a long well-formed stream: many frames, some of them large, 4-70 KB in all (buffer-size effects)
+                    let mut bytes = Vec::new();
+                    let target = *r.pick(&[4_200usize, 9_000, 17_000, 70_000]);
+                    while bytes.len() < target {
+                        if r.chance(1, 6) { resp::encode(&R::Bulk(vec![b'L'; *r.pick(&[1_000usize, 4_096, 5_000, 16_384])]), &mut bytes); }
+                        else { resp::encode(&gen_tree(&mut r, 0), &mut bytes); }
+                    }
+                    sc.steps.push(Step::Ctl { name: "t".into(), n: 0, a: vec![B(bytes)] });
+                }
                 0 => { // frame tree -> our own encoding (well-formed stream), 1-3 frames
                     let mut bytes = Vec::new();
                     for _ in 0..r.range(1, 3) { resp::encode(&gen_tree(&mut r, 0), &mut bytes); }
@@ -223,7 +232,7 @@ fn trunc_items(v: &[Item]) -> String { let s = format!("{:?}", v.iter().take(4).
 pub static DEF: CheckDef = CheckDef {
     id: "C20", level: "exploration", gen, exec,
     nontrivial: |o| o.counters.get("cases").copied().unwrap_or(0) >= 100 && o.counters.get("frames_parsed").copied().unwrap_or(0) + o.counters.get("errors_reported").copied().unwrap_or(0) >= 10,
-    rule: "the schedule of this property is the chunking of a byte stream into parser feeds. Run indices 0..N enumerate ALL strings over the 21-symbol protocol alphabet {* $ + - : _ # , % ~ 0 1 9 CR LF a space P I N G} up to length 4 (quick) / 5 (thorough) in slices of 2500; later runs draw 600 cases each: frame trees of every RESP2/RESP3 type (depth <= 6, empty/binary payloads, both null forms) encoded by the harness' own encoder, random alphabet strings up to 64 bytes, mutated valid streams, absurd declared lengths. Every stream is fed whole, at every single split point (short strings) or sampled split points, one byte at a time and in random 3-way splits; the sequence of (frame | error) results up to the first error must be identical; well-formed trees must satisfy parse(serialize(f)) = f consuming exactly the bytes (a sentinel frame must follow); no call may panic or request more than bytes-fed + 256 KiB in one allocation (allocator seam). non-trivial run = at least 100 cases producing at least 10 frames/errors; distinct = distinct hash over all parse results of the run. exhaustive=true only when the run budget covered every slice of the short-string enumeration",
+    rule: "the schedule of this property is the chunking of a byte stream into parser feeds. Run indices 0..N enumerate ALL strings over the 21-symbol protocol alphabet {* $ + - : _ # , % ~ 0 1 9 CR LF a space P I N G} up to length 4 (quick) / 5 (thorough) in slices of 2500; later runs draw 600 cases each: (now and then a long well-formed stream of 4-70 KB with bulk strings of 1-16 KB, for effects of buffer sizes;) frame trees of every RESP2/RESP3 type (depth <= 6, empty/binary payloads, both null forms) encoded by the harness' own encoder, random alphabet strings up to 64 bytes, mutated valid streams, absurd declared lengths. Every stream is fed whole, at every single split point (short strings) or sampled split points, one byte at a time and in random 3-way splits; the sequence of (frame | error) results up to the first error must be identical; well-formed trees must satisfy parse(serialize(f)) = f consuming exactly the bytes (a sentinel frame must follow); no call may panic or request more than bytes-fed + 256 KiB in one allocation (allocator seam). non-trivial run = at least 100 cases producing at least 10 frames/errors; distinct = distinct hash over all parse results of the run. exhaustive=true only when the run budget covered every slice of the short-string enumeration",
     quick_budget_s: 40.0, thorough_budget_s: 900.0, quick_max_runs: 1_000_000, thorough_max_runs: 100_000_000, exhaustive: false, exhaustive_after: |t| { let l = match t { Tier::Quick => 4, Tier::Thorough => 5 }; (total_upto(l) + SLICE - 1) / SLICE },
     real: &["ferrous::protocol::RespParser (feed/parse), serialize_resp_frame, RespFrame"],
     stub: &["none: no clock, thread or I/O is involved; the chunking of the stream is the only schedule"],
